@@ -149,9 +149,15 @@ def finish(ctx: Ctx, level_text: str, explanation: str) -> int:
     for i, o in enumerate(new):
         replay_dir.mkdir(exist_ok=True)
         rp = replay_dir / f"{ctx.prop}-{i}.json"
-        rp.write_text(json.dumps({"property": ctx.prop, **o.as_dict()}, indent=1))
-        print(f"  finding: [{o.rule}] {o.key}\n           {o.msg}\n           at {o.file}:{o.line}")
-        print(f"VIOLATION property={ctx.prop} replay={rp}")
+        if i < 40:
+            rp.write_text(json.dumps({"property": ctx.prop, **o.as_dict()}, indent=1))
+        if i < 12:
+            print(f"  finding: [{o.rule}] {o.key}\n           {o.msg}\n           at {o.file}:{o.line}")
+            print(f"VIOLATION property={ctx.prop} replay={rp}")
+        elif i < 40:
+            print(f"VIOLATION property={ctx.prop} replay={rp}  [{o.rule}] {o.key}")
+    if len(new) > 40:
+        print(f"  ... and {len(new) - 40} further new findings (all are in the evidence file)")
     # stale known findings are reported (not an error): the entry no longer matches
     live = {o.fkey for o in uniq}
     for k in kmap:
